@@ -136,6 +136,7 @@ def work(item):
                     pref = WordMatcher(g, word, preferred_rx=True).member()
                     needs_empty = not WordMatcher(g, word, preferred_rx=True, nonempty_rx=True).member()
                 res["viol"].append(("C05", dict(base, kind="generated_word_does_not_parse_back", word=repr(word), trees_back=len(back),
+                                               in_language=WordMatcher(g, word).member(),
                                                in_preferred_class=pref, needs_empty_regex_match=bool(pref and needs_empty),
                                                sig=f"roundtrip_fails:pref={pref}:needs_empty={bool(pref and needs_empty)}")))
     res["distinct"] = len(seen)
